@@ -21,6 +21,17 @@ LEVEL = "model_checking"
 PLANTS = [(6, 7, 8), (19, 21, 23), (20, 30, 12), (33, 9, 40), (12, 37, 35), (34, 38, 15), (26, 15, 30)]
 
 
+# "diagonal" layout: pairs farther apart than the exclusion distance but inside the cube that encloses the exclusion ball
+DIAG_BASE = [(8, 9, 10), (19, 21, 23), (28, 12, 34), (12, 32, 30)]
+
+
+def _plants(case):
+    if case.get("layout") != "diagonal":
+        return list(PLANTS)
+    off = case["corner"]
+    return [p for b in DIAG_BASE for p in (b, tuple(int(x + o) for x, o in zip(b, off)))]
+
+
 def _blobs(shape, pts, sigma):
     zz, yy, xx = np.indices(shape).astype(np.float32)
     img = np.zeros(shape, np.float32)
@@ -48,7 +59,9 @@ def replay(case) -> dict:
     kind = case["picker"]
     scale = case["scale"]
     fails = []
-    desc = dict(picker=kind, scale=scale, nchunks=[len(c) for c in chunks], chunks=[list(c) for c in chunks], multi_chunk=any(len(c) > 1 for c in chunks),
+    plants = _plants(case)
+    diag = case.get("layout") == "diagonal"
+    desc = dict(picker=kind, scale=scale, layout=case.get("layout", "spread"), nchunks=[len(c) for c in chunks], chunks=[list(c) for c in chunks], multi_chunk=any(len(c) > 1 for c in chunks),
                 dtype=case["dtype"])
     rots = None
     planted_rot = {}
@@ -56,15 +69,15 @@ def replay(case) -> dict:
         tmpl = _template()
         R = [np.eye(3, dtype=int), np.array([[1, 0, 0], [0, 0, -1], [0, 1, 0]]), np.array([[0, 1, 0], [0, 0, 1], [1, 0, 0]])]
         img = np.zeros(shape, np.float32)
-        for i, p in enumerate(PLANTS):
+        for i, p in enumerate(plants):
             paste(img, apply_rot24(tmpl, R[i % 3], (0, 0, 0)), p)
             planted_rot[p] = R[i % 3]
         rots = [Rotation.from_matrix(m.astype(float)) for m in R]
         picker = pick.ZNCCTemplateMatcher(tmpl, rotation=rots)
-        kw = dict(min_distance=4.0 * scale, min_score=0.6)
+        kw = dict(min_distance=(6.0 if diag else 4.0) * scale, min_score=0.6)
     else:
-        img = _blobs(shape, PLANTS, 1.6)
-        picker = pick.LoGPicker(sigma=1.6 * scale) if kind == "LoG" else pick.DoGPicker(sigma_low=1.6 * scale, sigma_high=2.6 * scale)
+        img = _blobs(shape, plants, 0.8 if diag else 1.6)
+        picker = pick.LoGPicker(sigma=(2.5 if diag else 1.6) * scale) if kind == "LoG" else pick.DoGPicker(sigma_low=1.6 * scale, sigma_high=2.6 * scale)
         kw = {}
     if case["dtype"] == "uint8":
         img = np.round(img / img.max() * 200).astype(np.uint8)
@@ -73,22 +86,22 @@ def replay(case) -> dict:
     if exc is not None:
         return dict(failures=[dict(desc, clause="Raised", error=f"{exc.kind}: {exc.msg[:80]} @ {exc.where}")])
     got = np.asarray(mol.pos, dtype=np.float64) / scale
-    want = np.array(PLANTS, dtype=np.float64)
+    want = np.array(plants, dtype=np.float64)
     used = set()
     for i, w in enumerate(want):
         d = np.linalg.norm(got - w, axis=1) if len(got) else np.array([])
         near = [j for j in np.flatnonzero(d <= 1.0)]
         if len(near) == 0:
-            fails.append(dict(desc, clause="ParticleFound", particle=list(PLANTS[i])))
+            fails.append(dict(desc, clause="ParticleFound", particle=list(plants[i])))
         elif len(near) > 1:
-            fails.append(dict(desc, clause="NoDuplicates", particle=list(PLANTS[i]), count=len(near)))
+            fails.append(dict(desc, clause="NoDuplicates", particle=list(plants[i]), count=len(near)))
         used.update(int(j) for j in near)
         if len(near) >= 1 and kind == "ZNCC":
             from harness.lattice import geodesic_deg
 
-            ang = geodesic_deg(mol.rotator[int(near[0])], Rotation.from_matrix(planted_rot[PLANTS[i]].astype(float)))
+            ang = geodesic_deg(mol.rotator[int(near[0])], Rotation.from_matrix(planted_rot[plants[i]].astype(float)))
             if ang > 0.1:
-                fails.append(dict(desc, clause="RotationOfPick", particle=list(PLANTS[i]), angle=round(ang, 2)))
+                fails.append(dict(desc, clause="RotationOfPick", particle=list(plants[i]), angle=round(ang, 2)))
     extra = [j for j in range(len(got)) if j not in used]
     if extra:
         fails.append(dict(desc, clause="NoMisplacedPicks", count=len(extra), first=[round(float(x), 2) for x in got[extra[0]]]))
@@ -107,6 +120,12 @@ def run(rep: engine.Report, tier: str, seed: int):
             for f in fams:
                 cases.append(dict(extents=f["extents"], chunks=f["chunks"], picker=picker, scale=scale, as_numpy=False, dtype="float32"))
         cases.append(dict(extents=fams[0]["extents"], chunks=fams[3]["chunks"], picker=picker, scale=1.0, as_numpy=False, dtype="uint8"))
+        if picker != "DoG":   # the DoG response does not resolve such close pairs to within a voxel
+            corner = fams[0]["corner"]["log25" if picker == "LoG" else "zncc60"]
+            for sc in (1.0, 0.5):
+                cases.append(dict(extents=fams[0]["extents"], chunks=[[n] for n in fams[0]["extents"]], picker=picker, scale=sc, as_numpy=True, dtype="float32", layout="diagonal", corner=corner))
+                for f in (fams[1], fams[3], fams[-3]):
+                    cases.append(dict(extents=f["extents"], chunks=f["chunks"], picker=picker, scale=sc, as_numpy=False, dtype="float32", layout="diagonal", corner=corner))
     results = engine.parallel_replay("harness.props.c20", "replay", cases, sync_dask=True)
     engine.collect(rep, cases, results, key=lambda c: c)
     rep.exhaustive = True
@@ -117,7 +136,8 @@ def run(rep: engine.Report, tier: str, seed: int):
         "is reported exactly once at its true position, and the historical defect is characterised exactly; replay: 7 planted particles "
         f"(interior, next to chunk boundaries, near faces) in a 40x44x48 image picked by LoG / DoG / ZNCC template matcher (3 searched "
         f"rotations, planted rotated templates) as numpy and under {len(fams)} dask chunk families (incl. chunks smaller than the overlap "
-        f"depth), scales, uint8 input; {len(cases)} cases"
+        f"depth, which dask merges), scales, uint8 input; plus a diagonal layout (pairs at the corner offset of the cube enclosing "
+        f"the exclusion ball, from TLC) for LoG and the template matcher; {len(cases)} cases"
     )
 
 
